@@ -109,6 +109,8 @@ pub fn run(ctx: &Ctx) -> Report {
         let cfg = Cfg::make(&mut rng, (i % 4) as u8);
         let o = GenOpts { max_files: 4, max_piece: if CONSTS.scaled { 2 * CONSTS.block } else { 2 * CONSTS.chunk.min(300_000) + 100 }, max_total: if CONSTS.scaled { 6 * CONSTS.block } else if i % 10 == 9 { 9 << 20 } else { 700_000 }, long_name_chance: (0, 1), flushes: true };
         let mut ops = gen_valid_ops(&mut rng, &o);
+        // error-then-continue: a few refused calls among the valid ones (they change nothing)
+        if i % 3 == 2 { ops = with_refused(&mut rng, &ops); rep.count("with-refused-calls"); }
         // make sure there is at least one flush somewhere in the middle
         let at = 1 + rng.below(ops.len() as u64 - 1) as usize;
         ops.insert(at, Op::Flush);
